@@ -10,7 +10,7 @@ import re
 from .absint import Sym, Lin, Obj, Raised, explore, show
 from .consts import Folder, Ref, Unknown, is_unknown
 from .model import ANALYSIS, DEX, AnalysisError, walk_no_nested, norm
-from .symflow import SymInterp, SetV, key, mcall, is_marker
+from .symflow import SymInterp, SetV, key, mcall, is_marker, opaque_term, generic_items
 
 
 # ---------------------------------------------------------------------------
@@ -124,6 +124,14 @@ def lin_eq(a, b):
         return False
     d = la + lb.scale(-1)
     return not d.terms and d.const == 0
+
+
+def exact(v, what):
+    """exactness policy: a verdict may only rest on a value the interpreter fully evaluated"""
+    t = opaque_term(v)
+    if t:
+        raise AnalysisError("%s: the interpreted value contains a term the model cannot evaluate (%s); no verdict" % (what, t[:120]))
+    return v
 
 
 class DNPath:
@@ -393,6 +401,8 @@ def compare_partition(P, ops, basic_ops):
             else:
                 ks.append(None)
         got.append(ks)
+    for (b, start, end, nb, ll, pushed) in P.blocks:
+        exact([start, end, nb, ll, pushed], "_create_basic_block model")
     spec = P.spec
     scen = "instructions " + ", ".join("#%d=%s" % (k, "branch" if ops[k] in basic_ops else "plain") for k in range(K))
     if P.why:
@@ -451,6 +461,7 @@ def compare_callsite(P, ops, basic_ops):
             out.append(("callsite/once", "set_childs is called %d times for the block ending in instruction %s" % (len(c), k)))
             continue
         arg = c[0]
+        exact(arg, "set_childs call site")
         if k is not None and ops[k] in basic_ops:
             if arg != DNK(k):
                 out.append(("callsite/branch", "block ending in branch instruction #%d gets successors %s, expected determineNext(ins#%d, idx#%d)" % (k, show(arg)[:80], k, k)))
@@ -580,6 +591,7 @@ def set_childs_paths(repo, folder, bb_cls, values, label):
                 P.problems.append(("targets/lookup", "set_childs(%s) looks up blocks at %s, expected %s (every target except -1, in order)"
                                    % (label, [show(a) for a in lookups], [show(a) for a in want_lookups])))
         childs = _getter(it, blk, "get_next")
+        exact([childs, lookups], "set_childs(%s)" % label)
         P.n_children = len(exp)
 
         def same_triple(c, e, mirrored=False):
@@ -595,6 +607,7 @@ def set_childs_paths(repo, folder, bb_cls, values, label):
         # ---- mirror: fathers of every target -----------------------------------
         for k, tb in found.items():
             fathers = _getter(it, tb, "get_prev")
+            exact(fathers, "set_childs(%s) predecessors" % label)
             fexp = [(e[1], e[0], blk) for e in exp if e[2] is tb]
             okf = isinstance(fathers, list) and len(fathers) == len(fexp) and all(
                 isinstance(c, tuple) and len(c) == 3 and lin_eq(c[0], e[0]) and lin_eq(c[1], e[1]) and c[2] is e[2]
@@ -753,4 +766,64 @@ def lookup_problems(repo, folder, bbs_cls, bb_cls):
             out.append(("lookup", "get_basic_block raises %s" % r))
         else:
             out.extend(r)
+    return out
+
+
+# ---------------------------------------------------------------------------
+# switch payloads: get_targets() yields the encoded *signed* relative targets
+# ---------------------------------------------------------------------------
+def payload_target_problems(repo, folder, cls, kind, size=2):
+    """Interpret PackedSwitch/SparseSwitch(cm, buff) in the bit-provenance domain with the size field fixed to
+    `size` and every other input bit symbolic; get_targets() must be the list of the `size` little-endian signed
+    32-bit words the Dalvik format places at byte 8+4k (packed) / 4+4*size+4k (sparse).
+    -> [(category, message)]; bits that stay unknown give AnalysisError (no verdict)."""
+    from .absint import Interp, BufV
+    from .bits import Bits, bits_relation
+    init = cls.lookup("__init__")
+    gt = cls.lookup("get_targets")
+    if init is None or gt is None or len(init.params()) != 3:
+        raise AnalysisError("anchor vanished: %s.__init__(cm, buff)/get_targets" % cls.name)
+    base = 8 if kind == "packed" else 4 + 4 * size
+    fixed = {}
+    for i in range(8):
+        fixed[("s", 2, i)] = (size >> i) & 1
+        fixed[("s", 3, i)] = 0
+
+    def run(asg):
+        a = dict(fixed)
+        a.update(asg)
+        it = Interp(repo, folder, asg=a, hooks={"inline_funcs": {"*module*"}})
+        o = it.new_obj(cls)
+        it.call_function(init, [Sym("cm"), BufV("buff")], recv=o)
+        return a, it.call_function(gt, [], recv=o)
+
+    out = []
+    for _, res in explore(run, max_paths=256):
+        if isinstance(res, Raised):
+            raise AnalysisError("%s(cm, buff) raises %s in the payload model" % (cls.name, res))
+        a, targets = res
+        if isinstance(targets, tuple):
+            targets = list(targets)
+        if not isinstance(targets, list) or len(targets) != size:
+            t = opaque_term(targets)
+            if t or not isinstance(targets, list):
+                raise AnalysisError("%s.get_targets() does not evaluate to a list of decoded words (%s)" % (cls.name, show(targets)[:80]))
+            out.append(("count", "%s with size %d yields %d targets" % (cls.name, size, len(targets))))
+            continue
+        for k, got in enumerate(targets):
+            if isinstance(got, int) and not isinstance(got, bool):
+                got = Bits.const(got)
+            if not isinstance(got, Bits):
+                raise AnalysisError("%s.get_targets()[%d] is not a decoded integer (%s)" % (cls.name, k, show(got)[:80]))
+            bl = []
+            for j in range(32):
+                key_ = ("s", base + 4 * k + j // 8, j % 8)
+                bl.append(a.get(key_, key_))
+            exp = Bits.source(bl, True)
+            rel = bits_relation(got.subst(a), exp)
+            if rel == "unknown":
+                raise AnalysisError("%s.get_targets()[%d]: some bits could not be traced to the payload bytes" % (cls.name, k))
+            if rel == "different":
+                out.append(("targets", "%s.get_targets()[%d] is %s; the %s-switch-payload stores a signed 32-bit relative target at bytes %d..%d (%s)"
+                            % (cls.name, k, got.subst(a).describe(), kind, base + 4 * k, base + 4 * k + 3, exp.describe())))
     return out
